@@ -3,6 +3,7 @@
 package client
 
 import (
+	"io"
 	"bytes"
 	"encoding/hex"
 	"fmt"
@@ -30,6 +31,21 @@ func c20Decode(p []byte) string {
 	res := "OK"
 	if err != nil {
 		res = "ERR"
+	} else if m.Payload != nil {
+		// "returns a value": the value must be a message, not a structure with holes - encoding
+		// what was decoded must not panic (a panic here is reported by the child loop with the
+		// frame of the encoder that met the hole)
+		func() {
+			defer func() {
+				if r := recover(); r != nil {
+					res = fmt.Sprintf("UNUSABLE %v @ %s", r, verifkit.PanicFrame())
+				}
+			}()
+			m.Serialize(io.Discard)
+		}()
+	}
+	if strings.HasPrefix(res, "UNUSABLE") {
+		return res
 	}
 	return fmt.Sprintf("%s %d", res, alloc)
 }
@@ -61,6 +77,8 @@ func c20Judge(ans string, crash *verifkit.Crash, inputLen int) (string, string) 
 			return "INCONCLUSIVE", crash.Fatal
 		case "timeout":
 			return "INCONCLUSIVE", "decode did not finish within the watchdog"
+		case "no-termination":
+			return "no-termination/" + crash.Frame, crash.Fatal
 		}
 		return crash.Kind + "/" + crash.Frame, crash.Fatal
 	}
@@ -70,6 +88,13 @@ func c20Judge(ans string, crash *verifkit.Crash, inputLen int) (string, string) 
 			frame = ans[i+3:]
 		}
 		return "panic/" + frame, ans
+	}
+	if strings.HasPrefix(ans, "UNUSABLE") {
+		frame := "?"
+		if i := strings.LastIndex(ans, " @ "); i >= 0 {
+			frame = ans[i+3:]
+		}
+		return "decoded-value-unusable/" + frame, "decoding returned no error, but encoding the returned value panics: " + ans
 	}
 	var res string
 	var alloc uint64
